@@ -772,7 +772,7 @@ class _SoapClient:
             timer.stop()
             metrics.log.debug("waited %s on server reply", timer)
         except suds.transport.TransportError as e:
-            content = e.fp and e.fp.read() or ""
+            content = e.fp and e.fp.read() or b""
             return self.process_reply(content, e.httpcode, tostr(e))
         return self.process_reply(reply.message, None, None)
 
